@@ -46,6 +46,29 @@ fn main() {
                 w.flush().unwrap();
             }
         }
+        "srv" => {
+            // mh srv <domain> <seed> <n-histories> [sockdir]
+            if args.len() < 5 {
+                usage();
+            }
+            let seed: u64 = args[3].parse().unwrap_or(1);
+            let n: usize = args[4].parse().unwrap_or(10);
+            let dir = args.get(5).cloned().unwrap_or_else(|| "/verif/work/sock".to_string());
+            std::panic::set_hook(Box::new(|_| {}));
+            let stdout = std::io::stdout();
+            let mut w = std::io::BufWriter::with_capacity(1 << 20, stdout.lock());
+            mh_harness::srvgen::run(&args[2], seed, n, &dir, &mut w);
+            w.flush().unwrap();
+        }
+        "srv-replay" => {
+            // mh srv-replay <steps.json> [sockdir]
+            let steps: serde_json::Value = serde_json::from_str(&std::fs::read_to_string(&args[2]).unwrap()).unwrap();
+            let dir = args.get(3).cloned().unwrap_or_else(|| "/verif/work/sock".to_string());
+            let stdout = std::io::stdout();
+            let mut w = std::io::BufWriter::new(stdout.lock());
+            mh_harness::srvgen::replay(&steps, &dir, &mut w);
+            w.flush().unwrap();
+        }
         "info" => {
             println!("{{\"buf\":{},\"max_conn\":{}}}", mh_harness::BUF, mh_harness::MAX_CONN);
         }
